@@ -342,7 +342,6 @@ def configs(tier):
         out.append(dict(case='equivariance', n_model=3, perm=perm))
     out.append(dict(case='fixed', n_rdm=3, n_model=2))
     if not quick:
-        out.append(dict(case='fixed', n_rdm=4, n_model=2))
         out.append(dict(case='fixed', n_rdm=2, n_model=3))
     out.append(dict(case='means', n_model=2, shape=[3, 2], cv_method='bootstrap', nan_samples=[1]))
     out.append(dict(case='means', n_model=2, shape=[1, 2, 3], cv_method='fixed'))
